@@ -248,7 +248,9 @@ def check(ctx):
     for a_ in ('_uptime', '_time_in_use', '_last_restore', '_last_use_start', '_is_shut_down'):
         for s in inv.attr_stores(P, a_):
             o.count()
-            if s.cls is not c:
+            if s.cls is not c and not (s.cls is not None and s.cls in c.mro and isinstance(s.node, ast.Attribute) and isinstance(s.node.value, ast.Name) and s.node.value.id == 'self'):
+                # (a base class or mixin of PartProcessor writing the field of `self` is PartProcessor's own code; what it does is decided by the
+                # exploration above, which follows the MRO)
                 o.fail(P, s.ctx, s.stmt, f'{a_} is written outside PartProcessor', file=s.mod.path, line=s.line)
 
     # ---- C13.5 callbacks ------------------------------------------------------------------------------------------
